@@ -127,11 +127,24 @@ def gen_libs(chk):
     libs.append(("libsep", [("Stack", "push__on_empty", True), ("Stack", "push__on_full", True), ("Stack", "pop__returns_last", True),
                             ("Stack", "pop", True), (None, "a__b", True), (None, "a", True), ("Queue", "x_", True), ("Queue", "x", True),
                             ("Queue", "y___z", True)]))
+    # names in which a stretch of text is preceded by a partial, overlapping occurrence of itself (what a
+    # matcher that restarts at the wrong place after a '*' gets wrong)
+    libs.append(("libover", [("Version", "adds_1_1_2", True), ("Version", "adds_1_2", True), ("Version", "adds_1_1", True),
+                             ("Version", "adds_2_1_2_1_2", True), ("Solo", "counts_0_0_1", True), ("Queue", "passs", True),
+                             ("Queue", "pass", True), ("Queue", "aab", True), ("Queue", "aaab", True), ("Queue", "abababc", True),
+                             ("Queueue", "ababc", True), (None, "xyxyz", True), (None, "xyz", True)]))
     return libs
+
+
+OVERLAP_PATTERNS = ["Version:*_1_2", "Version:adds*_1_2", "Version:*_1_2*", "*:*_1_2", "Version:*_2_1_2", "Solo:*_0_1", "Queue:*ss",
+                    "Queue:*aab", "Queue:a*ab", "Queue:*ababc", "Que*ue:*abc", "*ueue:ab*abc", "*xyz", "x*yz", "*:*a*b*c",
+                    "Q*:p*s*s", "Version:*_9_9"]
 
 
 def patterns_for(rng, tests, tier):
     pats = [None]
+    if any(x[1] == "adds_1_1_2" for x in tests):
+        return [None] + (OVERLAP_PATTERNS if tier == "thorough" else rng.sample(OVERLAP_PATTERNS, 10))
     t = rng.choice(tests)
     c, n = t[0] or "default", t[1]
     pats += ["%s:%s" % (c, n), "*:*", "%s:*" % c, "*:%s" % n, "%s*:%s*" % (c[:1], n[:1]), "%s:%s*" % (c, n[:2]),
@@ -175,7 +188,11 @@ def run_C09(chk, with_proof=True):
     build = vlib.build_repo("hooks")
     if with_proof:
         chk.prove(["Properties_C09.v"])
-        chk.cov["trusted_base"] = TRUSTED + ["axioms: see coverage.print_assumptions"]
+        chk.cov["trusted_base"] = TRUSTED + [
+            "tools/srccode.py: test_matches_pattern(), context_name_of(), test_name_of() of tools/runner.c are translated whole into CLite programs on every run and run by the extracted interpreter against RunnerTool.item_matches on enumerated patterns and names (function-level correspondence, fnmatch modelled by glob)",
+            "axioms: see coverage.print_assumptions"]
+        import codetie
+        codetie.matches(chk)
     rng = chk.rng
     d = vlib.private_dir("c09")
     try:
